@@ -11,7 +11,7 @@ TECHNIQUE = 'Lean 4: generic stream well-formedness theorem instantiated at the 
 LEAN_TARGET = "CxxModel.Props.C01"
 THEOREMS = ["Cxx.C01_dispatch", "Cxx.C01_keep_doxygen", "Cxx.C01_stream_well_formed", "Cxx.C01_fold_cons",
             "Cxx.C01_fold_append", "Cxx.dispatch_table_eq", "Cxx.rules_supported", "Cxx.C01_each_payload_stored_once", "Cxx.C01_one_callback", "Cxx.foldEvents_total", "Cxx.C01_enumerator_list", "Cxx.C01_enumerator_list_trailing_comma", "Cxx.enumList_last", "Cxx.enum_prefix", "Cxx.C01_using_namespace", "Cxx.C01_namespace_alias", "Cxx.C01_using_namespace_decl", "Cxx.C01_toplevel_using_namespace", "Cxx.C01_toplevel_using_declaration", "Cxx.C01_toplevel_variable", "Cxx.C01_declaration_statement", "Cxx.C01_toplevel_variables", "Cxx.C01_toplevel_typedef", "Cxx.C01_toplevel_forward_decl", "Cxx.C01_toplevel_using_alias", "Cxx.C01_toplevel_enum", "Cxx.C01_toplevel_function", "Cxx.C01_toplevel_function_params",
-    "Cxx.C01_function_general", "Cxx.toplevel_function_gen", "Cxx.C01_typedef_general", "Cxx.C01_using_alias_general", "Cxx.typeSpecS_cv", "Cxx.C01_declaration_statement_general", "Cxx.declarators_variables_pre",
+    "Cxx.C01_function_general", "Cxx.toplevel_function_gen", "Cxx.C01_typedef_general", "Cxx.C01_using_alias_general", "Cxx.typeSpecS_cv", "Cxx.C01_declaration_statement_general", "Cxx.declarators_variables_pre", "Cxx.C01_function_definition", "Cxx.parseFnEnd_body",
     "Cxx.C01_whole_source",
     "Cxx.C01_sequence",
     "Cxx.C01_variable_sequence",
